@@ -535,8 +535,14 @@ impl BlockCursor {
         let next_offset = block.restarts_boundary - up.remain().len();
         let value = be.value().map(|value| {
             let block_start = bytes.as_ptr() as usize;
-            let value_start = value.as_ptr() as usize - block_start;
-            (value_start, value.len())
+            let value_start = (value.as_ptr() as usize).wrapping_sub(block_start);
+            // A pair whose value field is absent decodes to the default empty slice, which does
+            // not point into the block; every other value is a slice of the block's bytes.
+            if value_start > bytes.len() {
+                (0, 0)
+            } else {
+                (value_start, value.len())
+            }
         });
         // Assemble the returnable cursor.
         key.truncate(be.shared());
